@@ -26,7 +26,7 @@ ASSUMPTIONS = [
     "tolerance |p - Phi(z)| <= 1e-9 + 1e-4 min(Phi, 1 - Phi) (DESIGN.md C15): quadrature, not closed form",
     "monotony is judged up to the same absolute 1e-9; strict increase is demanded where Phi(z) itself grows by more than 1e-6",
     "'tends to the deterministic-load value': errors against pf_simple_load for load std 1e-3, 1e-4, 1e-5 do not grow (slack 1e-9) "
-    "and the last one is within the tolerance above",
+    "and the last one is within the tolerance above of the analytic difference Phi(z0 s/sqrt(s^2 + 1e-10)) - Phi(z0)",
     "'converges' for the sampled density: trapezoid grids of 201/801/3201 points over +-8 load std; the error of a finer grid may "
     "not exceed that of a coarser one (slack 1e-9) once the coarser grid resolves the strength scatter (spacing <= strength std), "
     "and the finest error is <= 1e-4 when the finest grid resolves it; unresolved combinations are counted, not judged",
@@ -162,9 +162,13 @@ def check_vanish(case):
                 out.append(tuple(errs))
                 if errs[1] > errs[0] + TOL_ABS or errs[2] > errs[1] + TOL_ABS:
                     viol.append(("C15/vanishing-load-scatter/error-grows", {"z0": z0, "load_std": VANISH, "abs_error_vs_simple": errs}))
-                elif not (errs[2] <= _tol(e)):
-                    viol.append(("C15/vanishing-load-scatter/limit-not-reached", {"z0": z0, "load_std": VANISH, "abs_error_vs_simple": errs,
-                                                                                  "tolerance": _tol(e)}))
+                else:
+                    # what remains at the smallest load std must be explained by the analytic overlap itself
+                    gap = abs(_N01.cdf(z0 * ss / math.hypot(ss, VANISH[-1])) - e)
+                    if not (errs[2] <= gap + _tol(e)):
+                        viol.append(("C15/vanishing-load-scatter/limit-not-reached",
+                                     {"z0": z0, "load_std": VANISH, "abs_error_vs_simple": errs, "analytic_gap_at_smallest_std": gap,
+                                      "tolerance": _tol(e)}))
     except Exception as e:
         viol.append(_raised(e, "vanishing-load-scatter"))
     return viol, nev, tuple(out)
